@@ -55,6 +55,7 @@ type Cfg struct {
 	Batch     BatchCfg `json:"batch"`
 	Retry     bool     `json:"retry"`
 	RetryFast bool     `json:"retry_fast"` // true: 2 ms back-off (retries happen); false: 1 h (only shutdown ends the wait)
+	CloseErr  bool     `json:"close_err"`  // persistent: the storage client's Close reports an error (Shutdown then returns one)
 }
 
 type Step struct {
@@ -371,6 +372,9 @@ func runScript(sc Script, serial *sync.Mutex) []Ev {
 			sid := component.MustNewID("vstore")
 			qc.StorageID = &sid
 			store = xh.NewStore()
+			if cfg.CloseErr {
+				store.CloseErr = errors.New("scripted failure to close the storage client")
+			}
 			store.NewIncarnation(0)
 			host = &xh.Host{ID: sid, Ext: &xh.Ext{S: store}}
 		}
